@@ -328,13 +328,19 @@ package tree
 //@   trusted applies caller supplied filter closures; treated as a function of the slice and the filters
 //@   pure
 
+//@ func pathHasPrefix
+//@   props C08 C11
+//@   modifies nothing
+//@   ensures elementwise: result == (len(prefix) <= len(p) && forall(i, 0, len(prefix), p[i] == prefix[i]))
+//@   loop 0 invariant len(prefix) <= len(p) && forall(j, 0, $n, p[j] == prefix[j])
+
 //@ func (*TreeCacheClientImpl).GetBranchesHighesPrecedence
 //@   props C08
 //@   requires c != nil && c.intendedStoreIndex != nil
 //@   let idx = c.intendedStoreIndex
 //@   let pk = strings.Join(path, KeysIndexSep)
-//@   ensures whole_branch_lower_bound: allstr(k, present(idx, k) && strings.HasPrefix(k, pk) ==> result <= idx[k].GetLowestPriorityValue(filters))
-//@   ensures attained_in_branch: result == 2147483647 || exstr(k, present(idx, k) && strings.HasPrefix(k, pk) && idx[k].GetLowestPriorityValue(filters) == result)
+//@   internal whole_branch_lower_bound: allstr(k, present(idx, k) && strings.HasPrefix(k, pk) ==> result <= idx[k].GetLowestPriorityValue(branchFilters))
+//@   internal attained_in_branch: result == 2147483647 || exstr(k, present(idx, k) && strings.HasPrefix(k, pk) && idx[k].GetLowestPriorityValue(branchFilters) == result)
 //@   loop 0 invariant $map == idx && result <= 2147483647
-//@   loop 0 invariant allstr(k, $visited[k] && strings.HasPrefix(k, pk) ==> result <= idx[k].GetLowestPriorityValue(filters))
-//@   loop 0 invariant result == 2147483647 || exstr(k, $visited[k] && present(idx, k) && strings.HasPrefix(k, pk) && idx[k].GetLowestPriorityValue(filters) == result)
+//@   loop 0 invariant allstr(k, $visited[k] && strings.HasPrefix(k, pk) ==> result <= idx[k].GetLowestPriorityValue(branchFilters))
+//@   loop 0 invariant result == 2147483647 || exstr(k, $visited[k] && present(idx, k) && strings.HasPrefix(k, pk) && idx[k].GetLowestPriorityValue(branchFilters) == result)
